@@ -861,3 +861,52 @@ Example ex_follows :
     [AcqR "t"; LockSkeletons.Rd "t" ".ipv4"; LockSkeletons.Rd "t" "pfx_table_for_each_rec"; Cb "fp"; LockSkeletons.Rel "t"].
 Proof. unfold follows. simpl. repeat constructor. Qed.
 End Examples.
+
+(* ---------------------------------------------------------------------------------------- *)
+(* The sequential functions of the prefix-table operations are those of C01/C02 (Pfx/PfxTable.v):
+   calls of the public functions as one-critical-section operations on a table named l.        *)
+From RtrV Require Pfx.PfxTable.
+
+Section PfxCalls.
+Variable K : Type.
+Variable Keqb : K -> K -> bool.
+
+Inductive pfx_call :=
+| CValidate (v6 : bool) (asn : BinNums.N) (q : TrieModel.addr) (qlen : nat)     (* pfx_table_validate_r *)
+| CAdd (r : PfxTable.frecord)                                            (* pfx_table_add *)
+| CRemove (r : PfxTable.frecord).                                        (* pfx_table_remove *)
+Inductive pfx_result :=
+| RValidated (res : TrieModel.vstate * list PfxTable.frecord)
+| RCode (c : TrieModel.rc).
+
+(* the answer of a call on table contents T, and the contents it leaves: the functions C01 / C02 are about *)
+Definition call_result (c : pfx_call) (T : PfxTable.table) : pfx_result :=
+  match c with
+  | CValidate v6 asn q qlen => RValidated (PfxTable.tvalidate T v6 asn q qlen)
+  | CAdd r => RCode (snd (fst (PfxTable.tadd T r)))
+  | CRemove r => RCode (snd (fst (PfxTable.tremove T r)))
+  end.
+Definition call_effect (c : pfx_call) (T : PfxTable.table) : PfxTable.table :=
+  match c with
+  | CValidate _ _ _ _ => T
+  | CAdd r => fst (fst (PfxTable.tadd T r))
+  | CRemove r => fst (fst (PfxTable.tremove T r))
+  end.
+
+Definition call_op (l : K) (c : pfx_call) : RwLock.op K PfxTable.table (list pfx_result) :=
+  match c with
+  | CValidate _ _ _ _ => mkOp l Rm [BRd (fun lc T => lc ++ [call_result c T])]
+  | _ => mkOp l Wm [BRd (fun lc T => lc ++ [call_result c T]); BWr (fun _ T => call_effect c T)]
+  end.
+
+Lemma call_op_ok l c : op_ok (call_op l c) = true.
+Proof. destruct c; reflexivity. Qed.
+
+Lemma call_ops_ok l cs : forallb op_ok (map (call_op l) cs) = true.
+Proof. induction cs as [|c cs IH]; simpl; auto. rewrite call_op_ok. exact IH. Qed.
+
+(* run alone, a call appends its sequential answer and applies its sequential effect to table l *)
+Lemma call_op_seq l c lc (s : RwLock.store K PfxTable.table) :
+  seq_op Keqb (call_op l c) lc s = (lc ++ [call_result c (s l)], upd Keqb s l (call_effect c (s l))).
+Proof. destruct c; reflexivity. Qed.
+End PfxCalls.
